@@ -161,6 +161,11 @@ def t2(ctx, py: PyRepo):
         fn = ci.methods.get(op)
         where = py.where('pattern', fn or ci.node)
         if fn is None:
+            inherited = py.find_method(ci, op)
+            stub = inherited is None or all(isinstance(st, (ast.Raise, ast.Pass)) or (isinstance(st, ast.Expr) and isinstance(st.value, ast.Constant))
+                                            for st in inherited[1].body)
+            ctx.require(stub, f'Instantiate.{op} is inherited from {inherited[0].name if inherited else "?"}, which implements the operation for all '
+                              f'constructors in one function that cannot be specialised for the notation node; whether it works on the expansion is not decided')
             ctx.ob('notation-delegates', f'Instantiate.{op}', False, f'Instantiate does not define {op}', where)
             continue
         params = tuple(('param', a.arg) for a in fn.args.args[1:])
@@ -277,11 +282,40 @@ def metavars_arms(ctx, py: PyRepo):
            'or delegate to the expansion', py.where('pattern', fn))
 
 
+def loop_defined_recursion(ctx, py: PyRepo):
+    """a function defined inside a loop (one variant per iteration, the variant pinned by a default argument or the loop variable)
+    that calls itself BY NAME reaches, at call time, whatever that name was bound to last - the variant of the final iteration -
+    so its re-dispatch after expanding a notation continues as another constructor's function"""
+    n = 0
+    for mname in ('pattern', 'proofs.kore', 'proofs.propositional', 'proofs.substitution', 'proofs.definedness'):
+        mi = py.modules.get(mname)
+        if mi is None:
+            continue
+        for loop in [x for x in ast.walk(mi.tree) if isinstance(x, (ast.For, ast.While))]:
+            for f in [x for st in loop.body for x in ast.walk(st) if isinstance(x, ast.FunctionDef)]:
+                n += 1
+                params = [a.arg for a in f.args.args + f.args.kwonlyargs]
+                defaults_from_loop = bool(f.args.defaults or any(d is not None for d in f.args.kw_defaults))
+                for c in ast.walk(f):
+                    if isinstance(c, ast.Call) and isinstance(c.func, ast.Name) and c.func.id == f.name:
+                        passed = len(c.args) + len(c.keywords)
+                        if defaults_from_loop and passed < len(params):
+                            ctx.ob('dispatch-sees-through', f'{mname}.{f.name}@loop', False,
+                                   f'`{f.name}` is defined once per iteration of a loop, pinned to the iteration by a default argument, and '
+                                   f'calls `{f.name}(..)` by name without that argument: the call reaches the definition of the LAST iteration, so '
+                                   f'the re-dispatch (e.g. after `.simplify()`) continues as a different variant', py.where(mname, c))
+    ctx.ob('dispatch-sees-through', 'loop-defined-functions', True, f'{n} functions defined in loops examined', '')
+
+
 def run(ctx):
     py = PyRepo.get()
     t1(ctx, py)
     t2(ctx, py)
     metavars_arms(ctx, py)
+    loop_defined_recursion(ctx, py)
+    # instantiating a notation application equals instantiating its expansion: ONE merged map over the untouched body (shared with C11)
+    from .c11 import simultaneity
+    simultaneity(ctx, py)
     ctx.floor('metavars-arm', 11)
     ctx.floor('dispatch-sees-through', 8)
     ctx.floor('notation-delegates', 6)
